@@ -35,6 +35,7 @@ type schedWorld struct {
 	// the per-file lock of a name (delPathLock) while another reception of that name is in flight
 	inflight  map[string]map[uint64]bool
 	lockSplit bool
+	notReady  bool // the stage's ready flag has been cleared at least once (Recover)
 }
 
 func newSchedWorld(files []*sFile) *schedWorld {
@@ -45,6 +46,9 @@ func newSchedWorld(files []*sFile) *schedWorld {
 	}
 	sw.inflight = map[string]map[uint64]bool{}
 	vrt.OnNotify = func(what, arg string) {
+		if what == "canReceive" && arg == "false" {
+			sw.notReady = true // Recover has closed the gate
+		}
 		if what != "delPathLock" {
 			return
 		}
@@ -329,4 +333,114 @@ func TestC01Sched(t *testing.T) {
 	runSchedScenarios(t, "C01", "concurrent connections, new version during validation (E-SCHED)", []*vh.SchedScenario{
 		scenarioNewVersion(b), scenarioTwoParts(false, b),
 	}, fmt.Sprintf("all interleavings with <= %d preemptions of: last part of version 1 of a file on one connection, both parts of a corrupted version 2 (same name and size) on another, with the stage's validators and finalizer", b))
+}
+
+// ---------------------------------------------------------------- C20: cleaning concurrent with a transfer
+
+// scenarioCleanVsTransfer: CleanNow runs while the last part of a file arrives, is validated and
+// finalized; optionally two files are held in a predecessor cycle, so that the cleaner walks the
+// wait map (and re-enters the cache lock). Deadlock is a violation ("cleaning can run at any
+// time"); nothing of the file in flight may be lost.
+func scenarioCleanVsTransfer(cycle bool, bound int) *vh.SchedScenario {
+	name := "clean-vs-last-part"
+	if cycle {
+		name = "clean-with-cycle-vs-last-part"
+	}
+	return &vh.SchedScenario{Name: name, Bound: bound, Build: func(x *vrt.Sched) func(*vrt.Sched) (string, string, string) {
+		files := []*sFile{
+			{Key: "a1", Name: "a", Data: "AAAABBBB", Cuts: []int64{0, 4, 8}},
+			{Key: "p1", Name: "p", Prev: "q", Data: "PPPP", Cuts: []int64{0, 4}},
+			{Key: "q1", Name: "q", Prev: "p", Data: "QQQQ", Cuts: []int64{0, 4}},
+		}
+		sw := newSchedWorld(files)
+		sw.recv("a1", 0, false) // sequential prefix
+		if cycle {
+			sw.recv("p1", 0, false)
+			sw.recv("q1", 0, false)
+			sw.w.settle()
+		}
+		x.Go("conn", func() { sw.recv("a1", 1, false) })
+		x.Go("cleaner", func() { sw.w.st.CleanNow() })
+		return func(x *vrt.Sched) (string, string, string) {
+			defer sw.close()
+			if x.Deadlock != "" {
+				return "cleaning concurrent with a transfer does not terminate", "", ""
+			}
+			if x.Diverged != "" {
+				return "", "", ""
+			}
+			final, log, stage := sw.finish()
+			if sw.errs["a1.1"] != nil {
+				return "", "", "receive error"
+			}
+			f := sw.files["a1"]
+			found := false
+			for _, x := range final {
+				if x == f.target()+" "+f.hash() {
+					found = true
+				}
+			}
+			if !found {
+				return fmt.Sprintf("the file whose last part arrived while the cleaner ran was not delivered: final=%v log=%v stage=%v", final, log, stageNames(stage)), sw.class(), ""
+			}
+			if v := sw.c01FinalOracle(final, log); v != "" {
+				return v, sw.class(), ""
+			}
+			return "", "", fmt.Sprintf("delivered=%d", len(final))
+		}
+	}}
+}
+
+func TestC20Sched(t *testing.T) {
+	b := 1
+	if vh.Thorough() {
+		b = 2
+	}
+	runSchedScenarios(t, "C20", "cleaning concurrent with a transfer (E-SCHED)", []*vh.SchedScenario{
+		scenarioCleanVsTransfer(false, 2), scenarioCleanVsTransfer(true, b),
+	}, fmt.Sprintf("all interleavings with <= 2 (with the cycle: <= %d) preemptions of CleanNow against the reception of the last part of a file with its validation and finalization, without and with two other files held in a predecessor cycle (the cleaner then walks the wait map and re-enters the cache lock); deadlock = violation", b))
+}
+
+// ---------------------------------------------------------------- C15: a request arriving around the start of recovery
+
+// scenarioRecoveryWindow: main/server.go creates the stage (ready) and starts `go stager.Recover()`;
+// a request thread checks Ready() as http.Server.handleValidate does and then delivers a part.
+// A request that passes the readiness test while recovery has not finished races with it.
+func scenarioRecoveryWindow(bound int) *vh.SchedScenario {
+	return &vh.SchedScenario{Name: "request-vs-start-of-recovery", Bound: bound, Build: func(x *vrt.Sched) func(*vrt.Sched) (string, string, string) {
+		files := []*sFile{{Key: "a1", Name: "a", Data: "AAAABBBB", Cuts: []int64{0, 4, 8}}}
+		sw := newSchedWorld(files)
+		sw.recv("a1", 0, false) // something for Recover to look at
+		started, done, raced := false, false, ""
+		x.Go("recover", func() { started = true; sw.w.st.Recover(); done = true })
+		x.Go("request", func() {
+			if !sw.w.st.Ready() {
+				return // answered 503
+			}
+			if !done {
+				raced = fmt.Sprintf("the readiness test let a request through while recovery had %s", map[bool]string{false: "not yet closed the gate (the stage is created ready, and `go Recover()` clears the flag only when it gets to run)", true: "closed the gate and not finished"}[sw.notReady])
+			}
+			sw.recv("a1", 1, false)
+		})
+		return func(x *vrt.Sched) (string, string, string) {
+			defer sw.close()
+			if x.Deadlock != "" || x.Diverged != "" {
+				return "", "", ""
+			}
+			sw.finish()
+			if raced != "" {
+				cl := ""
+				if strings.Contains(raced, "not yet closed the gate") {
+					cl = "ready-before-recover-starts"
+				}
+				return raced, cl, ""
+			}
+			return "", "", fmt.Sprintf("done=%v", done)
+		}
+	}}
+}
+
+func TestC15Sched(t *testing.T) {
+	runSchedScenarios(t, "C15", "request around the start of recovery (E-SCHED)", []*vh.SchedScenario{scenarioRecoveryWindow(2)},
+		"all interleavings with <= 2 preemptions of `go stager.Recover()` (as started by serverApp.init) against a request thread that performs handleValidate's readiness test and then delivers a part")
 }
